@@ -556,6 +556,8 @@ def task(t):
         "reachable": len(expected["reachable"]),
         "accepted": obs["compile_exit"] == 0,
         "opens_checked": len(expected["reachable"]),
+        # not binding (the property does not forbid looking at other files), but worth knowing
+        "unreachable_opened": len([p for p in obs["opens"] if p not in expected["reachable"]]),
         "fired": obs["fired"],
         "crashed_under_fault": crashed_under_fault,
         "has_cycle": has_cycle(spec),
@@ -736,6 +738,7 @@ def main(tier, seed, replay_path=None):
         "worlds_with_import_cycles": len([r for r in results if r["has_cycle"]]),
         "worlds_with_self_import": len([r for r in results if r["self_import"]]),
         "opens_checked": sum(r["opens_checked"] for r in results if r["mode"] != "fault"),
+        "opens_of_files_outside_the_reachable_set": sum(r["unreachable_opened"] for r in results),
         "injected_actions_fired": fired,
         "violating_worlds": len(violations),
         "runs_per_hour": int(len(results) / max(wall, 1e-9) * 3600),
